@@ -24,8 +24,11 @@ Cyclic(gr) == \E k \in DOMAIN gr : Reaches(gr, k, k)
 Lits == { k : k \in 1..(2 + NComp) } \cup { -k : k \in 1..(2 + NComp) }
 EvSets == { S \in SUBSET Lits : Cardinality(S) >= 1 /\ Cardinality(S) <= MaxEv /\ \A l \in S : -l \notin S }
 
+\* propagation only ever looks below the evidence nodes: graphs with a compound node that no evidence node reaches are covered
+\* by the instance without that node
+Below(gr, S) == LET E == { AbsK(l) : l \in S } IN E \cup ReachFrom(gr, UNION { Reach1(gr, k) : k \in E }, {})
 MCInit == /\ g \in { gr \in Graphs : NoNegCycle(gr) /\ (OnlyCyclic => Cyclic(gr)) }
-          /\ ev \in EvSets
+          /\ ev \in { S \in EvSets : CompIds \subseteq Below(g, S) }
           /\ InitRest
 MCSpec == MCInit /\ [][Next]_vars
 
